@@ -77,7 +77,8 @@ type fakeClock struct {
 
 type delayedSync struct {
 	report string
-	at     int64 // clock value the call read
+	at     int64  // clock value the call read
+	line   string // the model's primary segment of the call (fed when the call reaches the scheduler)
 }
 
 // gatedAuthorizer is the execute authorizer: it allows everything, but the authorization
@@ -741,7 +742,7 @@ func (w *world) startSync(pq string, sc int, comps []int, plat int, h, t int, re
 		if w.delayed == nil {
 			w.delayed = map[string]delayedSync{}
 		}
-		w.delayed[key] = delayedSync{report, w.clk.now}
+		w.delayed[key] = delayedSync{report: report, at: w.clk.now}
 	}
 	go func() {
 		defer w.guard("Synchronize")
@@ -880,7 +881,11 @@ func (w *world) canon(s *scheduler.VerifState) (string, map[string]string) {
 	for _, op := range s.DeduplicationMap {
 		items = append(items, fmt.Sprintf("d %d", opIndex(op)))
 	}
-	items = append(items, fmt.Sprintf("n cleanup=%d", s.CleanupEntries), fmt.Sprintf("n now=%d", s.Now.Unix()))
+	nowUnix := s.Now.Unix()
+	if s.Now.IsZero() {
+		nowUnix = 0 // no call has entered the scheduler yet
+	}
+	items = append(items, fmt.Sprintf("n cleanup=%d", s.CleanupEntries), fmt.Sprintf("n now=%d", nowUnix))
 	sort.Strings(items)
 	return strings.Join(items, "|"), assigned
 }
